@@ -27,9 +27,18 @@ def log_pdf_to_affiliation(
     else:
         _ = np.broadcast_arrays(weight, log_pdf, source_activity_mask)
 
+    if source_activity_mask is not None:
+        assert source_activity_mask.dtype == bool, source_activity_mask.dtype  # noqa
+        # Inactive sources must not take part in the scaling below: a much
+        # larger log_pdf of an inactive source let all active ones underflow.
+        log_pdf = np.where(source_activity_mask, log_pdf, -np.inf)
+
     # The value of affiliation max may exceed float64 range.
     # Scaling (add in log domain) does not change the final affiliation.
-    affiliation = log_pdf - np.amax(log_pdf, axis=-2, keepdims=True)
+    log_pdf_max = np.amax(log_pdf, axis=-2, keepdims=True)
+    # All sources inactive: nothing to scale
+    log_pdf_max = np.where(np.isneginf(log_pdf_max), 0, log_pdf_max)
+    affiliation = log_pdf - log_pdf_max
 
     np.exp(affiliation, out=affiliation)
 
